@@ -14,6 +14,7 @@ import TonVerif.Generated.TlFraming
 import TonVerif.Proofs.SrcBocDeser
 import TonVerif.Proofs.SrcOrderAny
 import TonVerif.Proofs.SrcBocAny
+import TonVerif.Proofs.SrcHashmapCnt
 
 namespace TonVerif.Properties.C19
 open TonVerif TonVerif.Model TonVerif.Model.Cost TonVerif.Proofs.Cost
@@ -473,5 +474,79 @@ example : ∃ d, order 10 Example.root [] = some d ∧ ValidOrder Example.root (
   · simp [Example.root, Example.m1, Example.m2, Example.leaf, PCell.refs]
 
 end SrcEmit
+
+/-! ### the dictionary parse recursion REGENERATED from parse.py, with its calls counted
+
+`Generated/HashmapCnt.lean` is the text pyrec.py generates for `parse` / `deserialize_hashmap_node` (Generated/HashmapSrc.lean) put
+into the counting monad `Py.Cnt` (one `tick` at the entry of each function, `oof` at the fuel-exhaustion line); a run started in
+state `s` returns (result or `none` = raised, final state).  `Py.Slice` = (cell type, remaining bits, remaining references). -/
+section SrcDict
+open TonVerif.Generated.HashmapSrc TonVerif.Generated.HashmapCnt TonVerif.Proofs.SrcHashmap TonVerif.Proofs.SrcHashmapCnt
+open TonVerif.Py (CntState)
+
+/-- the instrumented copy computes exactly what the regenerated `parse` / `deserialize_hashmap_node` compute (every fuel, input, state):
+counting changes nothing, and the copy is tied to the source through the regenerated functions (validated against the library and
+proved equal to the hand model, `c10_src_parse`). -/
+theorem c19_src_dict_erase (fuel : Nat) (sl : Py.Slice) (k : Int) (d : List (Bits × Py.Slice)) (pfx : Bits) (s : CntState) :
+    (parse_cnt fuel sl k d pfx s).1 = parse fuel sl k d pfx ∧
+    (deserialize_hashmap_node_cnt fuel sl k d pfx s).1 = deserialize_hashmap_node fuel sl k d pfx :=
+  ⟨(cnt_erase fuel).1 sl k d pfx s, (cnt_erase fuel).2 sl k d pfx s⟩
+
+/-- DEPTH ≤ KEY LENGTH, OF THE CODE AS WRITTEN.  For EVERY slice (any cell tree below it), int key length `k`, dict and prefix: the
+regenerated recursion started with fuel ≥ 2·max(k,0) + 2 never reaches a fuel-exhaustion line (`oof` stays as it was) — the Python
+recursion `parse → deserialize_hashmap_node → parse …` is at most `max(k,0) + 1` levels (2 frames each) deep, because
+`deserialize_hml` refuses a label longer than the remaining key and every fork consumes a key bit — and what it leaves in `ret_dict`
+(or that it raises) is the same for every such fuel. -/
+theorem c19_src_dict_depth_le_keylen (fuel : Nat) (c : Cell) (k : Int) (d : List (Bits × Py.Slice)) (pfx : Bits) (s : CntState)
+    (hf : 2 * k.toNat + 2 ≤ fuel) :
+    (parse_cnt fuel (Py.beginParse c) k d pfx s).2.oof = s.oof ∧
+    (∀ fuel', 2 * k.toNat + 2 ≤ fuel' →
+      (parse fuel' (Py.beginParse c) k d pfx).map (·.2.1) = (parse fuel (Py.beginParse c) k d pfx).map (·.2.1)) := by
+  refine ⟨(cnt_no_oof fuel).1 _ k d pfx s hf, fun fuel' hf' => ?_⟩
+  rw [src_parse_eq fuel' c k d pfx hf', src_parse_eq fuel c k d pfx hf]
+
+/-- OUTPUT-BOUNDED, OF THE CODE AS WRITTEN.  On the cell tree unfolded (to any depth ≥ n) from node `v` of any well-formed cost-model
+graph `g` — any sharing — the regenerated recursion, started at key length `n` with counters 0 and any fuel ≥ 2n + 2:
+never runs out of fuel; returns iff the cost model `dictCalls` says `done`, raises iff it says `raised`; and its number of
+`parse` + `deserialize_hashmap_node` calls IS the cost model's count — hence `4·(entries + stops) − 2` on a parse that returns
+(`c19_dict_output`) and at most `2^(n+2) − 2` always (`c19_dict_depth_le_keylen`). -/
+theorem c19_src_dict_output (g : DDag) (hg : ∀ nd ∈ g, ∀ k ∈ nd.kids, k < g.length) (v n F fuel : Nat)
+    (hv : v < g.length) (hF : n ≤ F) (hf : 2 * n + 2 ≤ fuel) (d : List (Bits × Py.Slice)) (pfx : Bits) :
+    let out := parse_cnt fuel (Py.beginParse (unfoldD g F v)) (n : Int) d pfx {}
+    out.2.oof = false ∧ out.2.calls = (dictCalls g (n + 1) v n).steps ∧ out.2.calls + 2 ≤ 2 ^ (n + 2) ∧
+    (out.1.isSome = true ↔ ∃ c, dictCalls g (n + 1) v n = .done c) ∧
+    (out.1.isSome = true → out.2.calls + 2 = 4 * ((dictOut g (n + 1) v n).1 + (dictOut g (n + 1) v n).2)) := by
+  intro out
+  have hb := cnt_bridge g hg (n + 1) v (n : Int) F fuel d pfx {} hv (by simp) (by simpa using hF) (by omega)
+  have hle := (c19_dict_depth_le_keylen g v n).2.2.2.1 (n + 1)
+  obtain ⟨hoof, hrest⟩ := hb
+  rcases hc : dictCalls g (n + 1) v n with c | c | _
+  · rw [hc] at hrest hle
+    obtain ⟨hs, hcalls⟩ := hrest
+    have hout := c19_dict_output g (n + 1) v n c hc
+    have hcalls' : out.2.calls = c := by simpa using hcalls
+    refine ⟨hoof, by simpa [DRes.steps] using hcalls, by simpa [DRes.steps, hcalls'] using hle, ⟨fun _ => ⟨c, rfl⟩, fun _ => hs⟩, fun _ => ?_⟩
+    rw [hcalls']; exact hout
+  · rw [hc] at hrest hle
+    obtain ⟨hn, hcalls⟩ := hrest
+    have hcalls' : out.2.calls = c := by simpa using hcalls
+    have hnone : out.1 = none := hn
+    refine ⟨hoof, by simpa [DRes.steps] using hcalls, by simpa [DRes.steps, hcalls'] using hle, ⟨fun h => ?_, fun ⟨c', h⟩ => by simp at h⟩, fun h => ?_⟩
+    · rw [hnone] at h; simp at h
+    · rw [hnone] at h; simp at h
+  · rw [hc] at hrest; exact hrest.elim
+
+/-- non-vacuity: the shared dictionary of `c19_dict_output`'s comment (4 cells, every fork references the same child twice, 8 entries at
+key length 3): the regenerated recursion on its unfolding makes 30 = 4·8 − 2 calls and returns. -/
+example : let out := parse_cnt 8 (Py.beginParse (unfoldD sharedDict 3 3)) ((3 : Nat) : Int) [] [] {}
+    out.1.isSome = true ∧ out.2.calls = 30 ∧ out.2.oof = false := by
+  have h := c19_src_dict_output sharedDict (by decide) 3 3 3 8 (by decide) (by decide) (by decide) [] []
+  have hc : dictCalls sharedDict (3 + 1) 3 ((3 : Nat) : Int) = .done 30 := by decide
+  simp only at h
+  obtain ⟨h1, h2, _, h4, _⟩ := h
+  rw [hc] at h2 h4
+  exact ⟨h4.2 ⟨30, rfl⟩, h2.trans rfl, h1⟩
+
+end SrcDict
 
 end TonVerif.Properties.C19
